@@ -412,3 +412,229 @@ Proof.
   destruct H as [ks2 [Hk2 ->]]. exists (ks1 ++ ks2). split; [|now rewrite adeletes_app].
   apply names_below_app; [|exact Hk2]. now apply (names_below_child n ch).
 Qed.
+
+(* re-running a segment on a parameter list that lost the names [ks] *)
+Lemma seg_match_adeletes : forall seg path ps rest v ks,
+  (forall ps0, seg_match seg path ps0 =
+               Some (rest, if seg_sets seg then ctx_set ps0 (sname seg) v else ps0)) ->
+  (seg_sets seg = true -> ~ In (sname seg) ks) ->
+  seg_match seg path (adeletes ks ps) =
+  Some (rest, adeletes ks (if seg_sets seg then ctx_set ps (sname seg) v else ps)).
+Proof.
+  intros seg path ps rest v ks Hu Hf. rewrite Hu. destruct (seg_sets seg); [|reflexivity].
+  unfold ctx_set. now rewrite adeletes_aset_fresh by (now apply Hf).
+Qed.
+
+Lemma match_children_found_dels : forall fuel n path ps r ps',
+  all_nodes idx_lit n -> all_nodes names_fresh_at n ->
+  match_children fuel n path ps = MFound r ps' ->
+  exists ks, names_below n ks /\ walk n path (adeletes ks ps) r ps'.
+Proof.
+  induction fuel as [|f IH]; intros n path ps r ps' Hall Hfr H; [discriminate|].
+  (* one child that matched and below which the search succeeded *)
+  assert (Hstep : forall ch psc path1 ps1, In ch (nchildren n) ->
+            seg_match (nseg ch) path psc = Some (path1, ps1) ->
+            match_children f ch path1 ps1 = MFound r ps' ->
+            exists ks, names_below n ks /\ walk n path (adeletes ks psc) r ps').
+  { intros ch psc path1 ps1 Ich SM MC.
+    apply IH in MC; [|now apply (all_nodes_child _ n)|now apply (all_nodes_child _ n)].
+    destruct MC as [ks [Hk W]]. destruct (seg_match_shape _ _ _ _ _ SM) as [v [-> Hu]].
+    exists ks. split; [now apply (names_below_child n ch)|].
+    apply (walk_down n ch path _ path1 _ r ps' Ich); [|exact W].
+    apply seg_match_adeletes; [exact Hu|]. intros Hs Ik.
+    destruct (Hk _ Ik) as [d [Hd Hn]].
+    exact (all_nodes_here _ _ (all_nodes_child _ _ _ Hfr Ich) Hs d Hd Hn). }
+  assert (Hloop : forall l psc, incl l (nchildren n) -> mc_loop f n path l psc = MFound r ps' ->
+            exists ks, names_below n ks /\ walk n path (adeletes ks psc) r ps').
+  { induction l as [|ch l IHl]; intros psc Hin HL; simpl in HL.
+    - exists []. split; [intros k []|]. simpl.
+      destruct path; [|discriminate]. destruct (Nat.ltb 0 (nsize n)) eqn:SZ; [|discriminate].
+      injection HL as <- <-. apply walk_here. now apply Nat.ltb_lt in SZ.
+    - assert (Ich : In ch (nchildren n)) by (apply Hin; now left).
+      assert (Hin' : incl l (nchildren n)) by (intros x Ix; apply Hin; now right).
+      destruct (seg_match (nseg ch) path psc) as [[path1 ps1]|] eqn:SM; [|now apply IHl].
+      destruct (match_children f ch path1 ps1) as [r0 p|p|s] eqn:MC; try discriminate.
+      + injection HL as -> ->. exact (Hstep ch psc path1 ps1 Ich SM MC).
+      + apply match_children_none_dels in MC; [|now apply (all_nodes_child _ n)].
+        destruct MC as [ks1 [Hk1 ->]]. destruct (seg_match_shape _ _ _ _ _ SM) as [v [-> _]].
+        rewrite abandon_child in HL. apply IHl in HL; [|exact Hin'].
+        destruct HL as [ks2 [Hk2 W]]. exists ((sname (nseg ch) :: ks1) ++ ks2).
+        split; [|now rewrite adeletes_app].
+        apply names_below_app; [|exact Hk2]. apply names_below_cons; [exact Ich|].
+        now apply (names_below_child n ch). }
+  rewrite match_children_S in H. cbv zeta in H.
+  assert (Htail : incl (skipn (length (nindexes n)) (nchildren n)) (nchildren n)) by apply incl_skipn.
+  destruct (nindexes n) as [|ix0 ixs] eqn:IX; [now apply Hloop in H|].
+  destruct path as [|b path]; [now apply Hloop in H|].
+  destruct (nth_error (nchildren n) (idx_get b (ix0 :: ixs))) as [ch|] eqn:NTH; [|discriminate].
+  assert (Ich : In ch (nchildren n)) by (eapply nth_error_In; eassumption).
+  destruct (seg_match (nseg ch) (b :: path) ps) as [[path1 ps1]|] eqn:SM; [|now apply Hloop in H].
+  destruct (match_children f ch path1 ps1) as [r0 p|p|s] eqn:MC; try discriminate.
+  - injection H as -> ->. exact (Hstep ch ps path1 ps1 Ich SM MC).
+  - apply match_children_none_dels in MC; [|now apply (all_nodes_child _ n)].
+    destruct MC as [ks1 [Hk1 ->]]. destruct (seg_match_shape _ _ _ _ _ SM) as [v [-> _]].
+    assert (Hlit : seg_sets (nseg ch) = false).
+    { apply (all_nodes_here _ _ Hall b ch); [rewrite IX; discriminate | now rewrite IX]. }
+    rewrite Hlit in H. apply Hloop in H; [|exact Htail].
+    destruct H as [ks2 [Hk2 W]]. exists (ks1 ++ ks2). split; [|now rewrite adeletes_app].
+    apply names_below_app; [|exact Hk2]. now apply (names_below_child n ch).
+Qed.
+
+(* The statement of the task, [forall fuel n path ps r ps', match_children .. = MFound r ps' ->
+   exists ps0, sub_params ps0 ps /\ walk n path ps0 r ps'], is FALSE for arbitrary nodes (see
+   the counterexamples at the end of this file); it holds under H1 and H2. *)
+Theorem match_children_sound_partial : forall fuel n path ps r ps',
+  all_nodes idx_lit n -> all_nodes names_fresh_at n ->
+  match_children fuel n path ps = MFound r ps' ->
+  exists ps0, sub_params ps0 ps /\ walk n path ps0 r ps'.
+Proof.
+  intros fuel n path ps r ps' H1 H2 H.
+  destruct (match_children_found_dels _ _ _ _ _ _ H1 H2 H) as [ks [_ W]].
+  exists (adeletes ks ps). split; [apply sub_params_adeletes | exact W].
+Qed.
+
+(* FALSE without H1 (counterexample below); holds under H1 *)
+Theorem match_children_none_params_partial : forall fuel n path ps ps',
+  all_nodes idx_lit n -> match_children fuel n path ps = MNone ps' -> sub_params ps' ps.
+Proof.
+  intros fuel n path ps ps' H1 H.
+  destruct (match_children_none_dels _ _ _ _ _ H1 H) as [ks [_ ->]]. apply sub_params_adeletes.
+Qed.
+
+(* with names that are fresh w.r.t. the incoming parameters the 404 reports exactly them *)
+Theorem match_children_none_exact : forall fuel n path ps ps',
+  all_nodes idx_lit n -> (forall d, desc n d -> ctx_get ps (sname (nseg d)) = None) ->
+  match_children fuel n path ps = MNone ps' -> ps' = ps.
+Proof.
+  intros fuel n path ps ps' H1 Hf H.
+  destruct (match_children_none_dels _ _ _ _ _ H1 H) as [ks [Hk ->]].
+  apply adeletes_absent. intros k Ik. destruct (Hk k Ik) as [d [Hd <-]]. now apply Hf.
+Qed.
+
+Lemma last_cons_default : forall (A : Type) (l : list A) (x d d' : A), last (x :: l) d = last (x :: l) d'.
+Proof.
+  intros A l. induction l as [|y l IH]; intros x d d'; [reflexivity|].
+  change (last (y :: l) d = last (y :: l) d'). apply IH.
+Qed.
+
+Theorem walk_spells_path : forall n path ps r ps', walk n path ps r ps' ->
+  exists chain : list node,
+    (match chain with [] => r = n | _ => last chain n = r end) /\
+    (forall c, In c chain -> True) /\ (0 < nsize r)%nat.
+Proof.
+  intros n path ps r ps' W. induction W as [n ps Hs | n ch path ps path1 ps1 r ps' Ich SM W IH].
+  - exists []. split; [reflexivity|]. split; [intros c []| exact Hs].
+  - destruct IH as [chain [Hl [_ Hs]]]. exists (ch :: chain).
+    split; [|split; [intros c _; exact I | exact Hs]].
+    destruct chain as [|c chain]; [simpl; now symmetry|].
+    change (last (c :: chain) n = r). rewrite <- Hl. apply last_cons_default.
+Qed.
+
+(* a walk never removes a parameter *)
+Lemma walk_keeps_keys : forall n path ps r ps', walk n path ps r ps' ->
+  forall k, ctx_get ps k <> None -> ctx_get ps' k <> None.
+Proof.
+  intros n path ps r ps' W. induction W as [n ps Hs | n ch path ps path1 ps1 r ps' Ich SM W IH];
+    intros k Hk; [exact Hk|].
+  apply IH. destruct (seg_match_shape _ _ _ _ _ SM) as [v [-> _]].
+  destruct (seg_sets (nseg ch)); [|exact Hk].
+  unfold ctx_get, ctx_set in *. rewrite alookup_aset. now destruct (beqb k (sname (nseg ch))).
+Qed.
+
+(* ================================================================ Part C : no runtime fault *)
+
+Definition idx_ok (n : node) : Prop :=
+  forall b, nindexes n <> [] -> (idx_get b (nindexes n) < length (nchildren n))%nat.
+
+Fixpoint heights (l : list node) : nat :=
+  match l with [] => O | x :: l' => Nat.max (height x) (heights l') end.
+
+Lemma height_eq : forall n, height n = S (heights (nchildren n)).
+Proof.
+  intros [s p i h x c]. simpl. f_equal. induction c as [|y c IHc]; simpl; [reflexivity|].
+  now rewrite IHc.
+Qed.
+
+Lemma height_child : forall n ch, In ch (nchildren n) -> (height ch < height n)%nat.
+Proof.
+  intros n ch I. rewrite (height_eq n). apply Nat.lt_succ_r.
+  induction (nchildren n) as [|y c IHc]; [destruct I|]. simpl.
+  destruct I as [->|I]; [apply Nat.le_max_l|].
+  etransitivity; [now apply IHc | apply Nat.le_max_r].
+Qed.
+
+Theorem match_children_no_panic : forall fuel n path ps,
+  all_nodes idx_ok n -> (height n <= fuel)%nat ->
+  forall s, match_children fuel n path ps <> MPanic s.
+Proof.
+  induction fuel as [|f IH]; intros n path ps Hall Hh s.
+  - rewrite height_eq in Hh. lia.
+  - assert (Hch : forall ch path1 ps1, In ch (nchildren n) -> match_children f ch path1 ps1 <> MPanic s).
+    { intros ch path1 ps1 Ich. apply IH; [now apply (all_nodes_child _ n)|].
+      apply height_child in Ich. lia. }
+    assert (Hloop : forall l psc, incl l (nchildren n) -> mc_loop f n path l psc <> MPanic s).
+    { induction l as [|ch l IHl]; intros psc Hin; simpl.
+      - destruct path; [destruct (Nat.ltb 0 (nsize n))|]; discriminate.
+      - assert (Ich : In ch (nchildren n)) by (apply Hin; now left).
+        assert (Hin' : incl l (nchildren n)) by (intros x Ix; apply Hin; now right).
+        destruct (seg_match (nseg ch) path psc) as [[path1 ps1]|] eqn:SM; [|now apply IHl].
+        destruct (match_children f ch path1 ps1) as [r0 p|p|s0] eqn:MC;
+          [discriminate | now apply IHl |].
+        intro E. injection E as ->. now apply (Hch ch path1 ps1 Ich). }
+    rewrite match_children_S. cbv zeta.
+    assert (Htail : incl (skipn (length (nindexes n)) (nchildren n)) (nchildren n)) by apply incl_skipn.
+    pose proof (all_nodes_here _ _ Hall) as Hidx. unfold idx_ok in Hidx.
+    destruct (nindexes n) as [|ix0 ixs] eqn:IX; [now apply Hloop|].
+    destruct path as [|b path]; [now apply Hloop|].
+    destruct (nth_error (nchildren n) (idx_get b (ix0 :: ixs))) as [ch|] eqn:NTH.
+    + assert (Ich : In ch (nchildren n)) by (eapply nth_error_In; eassumption).
+      destruct (seg_match (nseg ch) (b :: path) ps) as [[path1 ps1]|] eqn:SM; [|now apply Hloop].
+      destruct (match_children f ch path1 ps1) as [r0 p|p|s0] eqn:MC;
+        [discriminate | now apply Hloop |].
+      intro E. injection E as ->. now apply (Hch ch path1 ps1 Ich).
+    + apply nth_error_None in NTH. specialize (Hidx b). assert (ix0 :: ixs <> []) by discriminate.
+      specialize (Hidx H). lia.
+Qed.
+
+Lemma idx_get_set : forall l k v b, idx_get b (idx_set k v l) = if N.eqb b k then v else idx_get b l.
+Proof.
+  induction l as [|[k' v'] l IHl]; intros k v b; simpl; [reflexivity|].
+  destruct (N.eqb_spec k k') as [->|Nk]; simpl.
+  - now destruct (N.eqb b k').
+  - rewrite IHl. destruct (N.eqb_spec b k') as [->|Nb]; [|reflexivity].
+    destruct (N.eqb_spec k' k) as [E|_]; [congruence | reflexivity].
+Qed.
+
+Lemma build_indexes_from_ok : forall c i acc ix bound,
+  build_indexes_from c i acc = Some ix -> (i + length c <= bound)%nat ->
+  (forall b, (idx_get b acc < bound)%nat) -> forall b, (idx_get b ix < bound)%nat.
+Proof.
+  induction c as [|x c IHc]; intros i acc ix bound H Hb Hacc; simpl in H.
+  - now injection H as <-.
+  - simpl in Hb.
+    assert (Hnext : forall acc', build_indexes_from c (S i) acc' = Some ix ->
+              (forall b, (idx_get b acc' < bound)%nat) -> forall b, (idx_get b ix < bound)%nat).
+    { intros acc' H' Hacc'. apply (IHc (S i) acc' ix bound H'); [lia | exact Hacc']. }
+    destruct (styp (nseg x)); try (now apply (Hnext acc)).
+    destruct (sval (nseg x)) as [|b0 rest]; [discriminate|].
+    apply (Hnext _ H). intro b. rewrite idx_get_set. destruct (N.eqb b b0); [lia | apply Hacc].
+Qed.
+
+Theorem build_indexes_ok : forall c ix, build_indexes c = Ok ix ->
+  ix = [] \/ (forall b, (idx_get b ix < length c)%nat).
+Proof.
+  intros c ix H. unfold build_indexes in H.
+  destruct (Nat.ltb (length c) indexes_size) eqn:L.
+  - left. now injection H as <-.
+  - right. apply Nat.ltb_ge in L. unfold indexes_size in L.
+    destruct (build_indexes_from c 0 []) as [x|] eqn:B; [|discriminate]. injection H as <-.
+    apply (build_indexes_from_ok c 0%nat [] x (length c) B); [lia|]. intro b. simpl. lia.
+Qed.
+
+Theorem sort_node_idx_ok : forall n keyed n', sort_node n keyed = Ok n' -> idx_ok n'.
+Proof.
+  intros n keyed n' H. unfold sort_node in H.
+  destruct (build_indexes (ssort keyed)) as [ix|e|s|] eqn:B; simpl in H; try discriminate.
+  injection H as <-. apply build_indexes_ok in B. destruct n as [s p i h x c].
+  unfold idx_ok. simpl. intros b Hne. destruct B as [->|B]; [congruence | apply B].
+Qed.
